@@ -864,7 +864,9 @@ func redirectTrailingSlash(c *app.RequestContext) {
 		p = prefix + "/" + p
 	}
 
-	tmpURI := trailingSlashURL(p)
+	// The path is decoded already; as a request URI it would be decoded (and cut at '?'
+	// and '#', and have its dot segments resolved) a second time.
+	tmpURI := bytesconv.B2s(bytesconv.AppendQuotedPath(nil, bytesconv.S2b(trailingSlashURL(p))))
 
 	query := c.Request.URI().QueryString()
 
@@ -888,7 +890,8 @@ func redirectRequest(c *app.RequestContext) {
 func redirectFixedPath(c *app.RequestContext, root *node, trailingSlash bool) bool {
 	rPath := bytesconv.B2s(c.Request.URI().Path())
 	if fixedPath, ok := root.findCaseInsensitivePath(utils.CleanPath(rPath), trailingSlash); ok {
-		c.Request.SetRequestURI(bytesconv.B2s(fixedPath))
+		// (escaped: see redirectTrailingSlash)
+		c.Request.SetRequestURI(bytesconv.B2s(bytesconv.AppendQuotedPath(nil, fixedPath)))
 		redirectRequest(c)
 		return true
 	}
